@@ -34,7 +34,8 @@ pub fn blocks(thorough: bool) -> Vec<Block> {
         b.push(Block::new(u_rep_single(&["a", "b"], 14), thr(&[0], &grid_long), "r x 8 thresholds (every single string to length 14: overlapping and nested repeats with tails)"));
         b.push(Block::new(u_rep_single(&["a", "b"], 10), thr(&[W, I | X], &grid22), "r x {w, i+x} x 6 thresholds"));
         b.push(Block::new(u_rep_single(&["a", "b", "c"], 6), thr(&[0], &grid22), "r x 6 thresholds"));
-        b.push(Block::new(Universe::new("U_pairs{a,b}^<=4", &["a", "b"], 4, 2, false), thr(&[0], &[(1, 1), (2, 1), (1, 2)]), "r x {(1,1),(2,1),(1,2)}"));
+        b.push(Block::new(Universe::new("U_pairs{a,b}^<=5", &["a", "b"], 5, 2, false), thr(&[0], &[(1, 1), (2, 1), (1, 2)]), "r x {(1,1),(2,1),(1,2)} (a test case and the same plus a repeated block: optional grouped repetitions)"));
+        b.push(Block::new(Universe::new("U_pairs{e9,1f4a9,a}^<=4", &["\u{e9}", "\u{1f4a9}", "a"], 4, 2, false), thr(&[E, E | X], &[(1, 1)]), "r x {e, e+x}"));
         b.push(Block::new(Universe::new("U_abc2{a,b,c}", &["a", "b", "c"], 2, 0, true), thr(&bases_all, &[(1, 1)]), "r x 9 bases"));
         b.push(Block::new(Universe::new("U_adv(units)", &units, 4, 1, false), thr(&[0, E, W, X, E | X], &[(1, 1), (1, 2)]), "r x {{}, e, w, x, e+x} x {(1,1),(1,2)}"));
         b.push(Block::new(Universe::new("U_adv(A_esc)", A_ESC, 3, 1, false), thr(&[0, E], &[(1, 1)]), "r x {{}, e}"));
